@@ -824,3 +824,81 @@ func TestLayeredMergesParse(t *testing.T) {
 	}
 	recLayered.Exhaustive()
 }
+
+// ---------------------------------------------------------------------------
+// Strings the other checks never write: control characters, DEL, NEL, the byte order mark, U+2028,
+// non-characters and astral runes - as JSON escapes in keys and values at every kind of position.
+// ("For any byte sequence ... marshalling that pipeline to JSON and to YAML succeeds.")
+
+var recOdd = ev.New("TestPropOddStrings", "JSON documents whose keys and values hold control characters (U+0000-U+001F as \\u escapes), DEL, NEL, BOM, U+2028, U+FFFE, U+10FFFF and astral runes, in the pipeline env block, command / label, step env, plugin sources' configs, nested mappings of unknown fields, unknown steps, groups and top-level extras: the shared oracle (usable result => one step per entry, json.Marshal and yaml.Marshal succeed, ...); non-trivial = an odd KEY inside an order-preserving mapping (env block, nested unknown field, unknown step); distinct by document text")
+
+func TestPropOddStrings(t *testing.T) {
+	oddBits := []string{`\u0001`, `\u0007`, `\u000b`, `\u001b`, `\u007f`, `\u0085`, `\u0000`, `\ufeff`, `\u2028`, `\ufffe`, `\u00a0`, `\u200b`, `\\`, `\"`, `\t`, "\U0010ffff", "\U0001F600", "\U000E0001"} // JSON escapes, and raw astral runes (YAML has no surrogate-pair escapes)
+	ev.Check(t, 1500, 40000, func(t *rapid.T) {
+		n := 0
+		odd := func(label string) string {
+			n++
+			// pieces, so that a bit is never inserted into the middle of an earlier escape
+			pieces := []string{"s", fmt.Sprint(n)}
+			for i, c := 0, rapid.IntRange(0, 2).Draw(t, label+"n"); i < c; i++ {
+				at := rapid.IntRange(0, len(pieces)).Draw(t, label+"at")
+				pieces = append(pieces[:at:at], append([]string{rapid.SampledFrom(oddBits).Draw(t, label+"bit")}, pieces[at:]...)...)
+			}
+			return `"` + strings.Join(pieces, "") + `"`
+		}
+		obj := func(label string, n int, val func() string) string {
+			parts := make([]string, n)
+			for i := range parts {
+				parts[i] = odd(label+"k") + ": " + val()
+			}
+			return "{" + strings.Join(parts, ", ") + "}"
+		}
+		var val func(d int) string
+		val = func(d int) string {
+			switch k := rapid.IntRange(0, 7).Draw(t, "vk"); {
+			case k < 4 || d >= 2:
+				return odd("v")
+			case k == 4:
+				return "[" + odd("l1") + ", " + val(d+1) + "]"
+			case k == 5:
+				return rapid.SampledFrom([]string{"1", "true", "null", "1.5"}).Draw(t, "lit")
+			default:
+				return obj("m", rapid.IntRange(0, 3).Draw(t, "mn"), func() string { return val(d + 1) })
+			}
+		}
+		var steps []string
+		orderedOddKey := false
+		for i, c := 0, rapid.IntRange(1, 4).Draw(t, "nsteps"); i < c; i++ {
+			switch rapid.IntRange(0, 5).Draw(t, "skind") {
+			case 0:
+				steps = append(steps, obj("unk", rapid.IntRange(1, 3).Draw(t, "un"), func() string { return val(0) })) // unknown step
+				orderedOddKey = true
+			case 1:
+				steps = append(steps, `{"group": `+odd("g")+`, "steps": [{"command": `+odd("gc")+`, "agents": `+obj("ga", 2, func() string { return val(1) })+`}]}`)
+				orderedOddKey = true
+			case 2:
+				steps = append(steps, `{"wait": `+odd("w")+`, `+odd("wk")+`: `+val(0)+`}`)
+			default:
+				steps = append(steps, `{"command": `+odd("c")+`, "label": `+odd("l")+`, "env": `+obj("e", rapid.IntRange(0, 2).Draw(t, "en"), func() string { return odd("ev") })+
+					`, "plugins": [{"docker#v1": `+obj("p", rapid.IntRange(0, 2).Draw(t, "pn"), func() string { return val(1) })+`}]`+
+					`, "agents": `+obj("a", rapid.IntRange(1, 3).Draw(t, "an"), func() string { return val(0) })+`}`)
+				orderedOddKey = true
+			}
+		}
+		text := `{"env": ` + obj("pe", rapid.IntRange(0, 3).Draw(t, "pen"), func() string { return odd("pev") }) + `, "steps": [` + strings.Join(steps, ", ") + `], ` + odd("top") + `: ` + val(0) + `}`
+		oc, err := checkParse([]byte(text))
+		if err != nil {
+			t.Fatalf("%v\n%s", err, text)
+		}
+		if oc.skipped != "" {
+			recOdd.Excluded(oc.skipped)
+			return
+		}
+		cls := "usable"
+		if oc.hardErr {
+			cls = "hard-error"
+		}
+		recOdd.Case(ev.HashStr(text), oc.usable && orderedOddKey, cls)
+		recOdd.MaybeSample(oc.usable && orderedOddKey, func() any { return text[:min(len(text), 500)] })
+	})
+}
